@@ -170,6 +170,54 @@ def legacy_transform_case(col, seed):
     col.add(v)
 
 
+def weak_var_with_dist_case(col, seed):
+    """the likelihood sits on a DERIVED quantity: resid = y - x*beta is a weak variable with a distribution N(0, exp(log_sigma)) whose value
+    path is deeper than its parameter path; single-key positions (only beta / only log_sigma change)"""
+    rng = np.random.default_rng(seed)
+    x_np = rng.normal(size=6).astype(np.float32)
+    y_np = (1.5 * x_np + 0.3 * rng.normal(size=6)).astype(np.float32)
+    x, y = lsl.obs(x_np, name="x"), lsl.obs(y_np, name="y")
+    beta = lsl.param(jnp.float32(0.0), lsl.Dist(tfd.Normal, loc=0.0, scale=10.0), name="beta")
+    log_sigma = lsl.param(jnp.float32(0.0), lsl.Dist(tfd.Normal, loc=0.0, scale=3.0), name="log_sigma")
+    mu = lsl.Var(lsl.Calc(lambda x_, b_: x_ * b_, x, beta), name="mu")
+    resid = lsl.Var(lsl.Calc(lambda y_, m_: y_ - m_, y, mu), lsl.Dist(lambda log_scale: tfd.Normal(loc=0.0, scale=jnp.exp(log_scale)), log_scale=log_sigma), name="resid")
+    resid.observed = True
+    model = lsl.GraphBuilder().add(resid).build_model()
+    iface = gs.LieselInterface(model)
+    inp = {"model": "resid = y - x*beta (weak variable) ~ N(0, exp(log_sigma)), observed", "seed": seed}
+
+    def check(state, what):
+        b_, ls_ = np.float64(state["beta_value"].value), np.float64(state["log_sigma_value"].value)
+        r = y_np.astype(np.float64) - x_np.astype(np.float64) * b_
+        ll = np.sum(-0.5 * (r / np.exp(ls_)) ** 2 - ls_ - 0.5 * np.log(2 * np.pi))
+        got_r, got_ll = np.asarray(state["resid_value"].value, np.float64), float(np.sum(np.asarray(state["resid_log_prob"].value)))
+        if not (np.allclose(got_r, r, rtol=1e-4, atol=1e-5) and np.isclose(got_ll, ll, rtol=2e-4, atol=2e-4) and np.isclose(float(np.asarray(state["_model_log_lik"].value)), ll, rtol=2e-4, atol=2e-4)):
+            return {"sig": "native::coherence::weak_variable_with_distribution", "what": f"{what}: stored residual log-density {got_ll} (log-lik {float(np.asarray(state['_model_log_lik'].value))}); "
+                    f"recomputed from the stored beta={b_}, log_sigma={ls_}: {ll}", "input": inp}
+        return None
+
+    v = check(iface.update_state({"beta": jnp.float32(1.1)}, model.state), "update_state({'beta': 1.1})")
+    v = v or check(iface.update_state({"log_sigma": jnp.float32(-0.4)}, model.state), "update_state({'log_sigma': -0.4})")
+    if v is None:
+        k1, k2 = gs.RWKernel(["beta"], initial_step_size=0.5), gs.RWKernel(["log_sigma"], initial_step_size=0.5)
+        for i, k in enumerate((k1, k2)):
+            k.set_model(iface)
+            k.identifier = f"k{i}"
+        seq = KernelSequence([k1, k2])
+        key = jax.random.PRNGKey(seed)
+        ms, ks = model.state, seq.init_states(key, model.state)
+        ep = EpochConfig(EpochType.POSTERIOR, 8, 1, None).to_state(1, 0)
+        tr = jax.jit(seq.transition)
+        for it in range(8):
+            key, sub = jax.random.split(key)
+            o = tr(sub, ks, ms, ep)
+            ms, ks = o.model_state, o.kernel_states
+            v = check(ms, f"iteration {it}")
+            if v:
+                break
+    col.add(v)
+
+
 def order_case(col, via_engine):
     """two deterministic Gibbs kernels on disjoint blocks whose composition is order-sensitive (a <- b + 1, then b <- 2a + 1);
     identifiers chosen so that alphabetical order differs from the configured order"""
@@ -221,6 +269,17 @@ def bounded(tier, seed):
         except Exception as e:
             col.add({"sig": f"native::order::exception::{type(e).__name__}", "what": str(e)[:200], "input": {"via_engine": via_engine}})
     try:
+        from rtc.c03 import param_dependent_bijector_case
+        sub = util.Collector()
+        param_dependent_bijector_case(sub)
+        col.add({**sub.violations[0], "sig": "native::coherence::parameter_dependent_bijector"} if sub.violations else None)
+    except Exception as e:
+        col.add({"sig": f"native::coherence::exception::{type(e).__name__}", "what": str(e)[:200], "input": {"scenario": "parameter-dependent default bijector"}})
+    try:
+        weak_var_with_dist_case(col, seed + 4)
+    except Exception as e:
+        col.add({"sig": f"native::coherence::exception::{type(e).__name__}", "what": str(e)[:200], "input": {"scenario": "weak variable with distribution"}})
+    try:
         legacy_transform_case(col, seed + 2)
     except Exception as e:
         col.add({"sig": f"native::coherence::exception::{type(e).__name__}", "what": str(e)[:200], "input": {"scenario": "legacy transform, variable-name keys"}})
@@ -234,7 +293,7 @@ def bounded(tier, seed):
         "rule": (f"BOUNDED: Liesel model (mu, log_sigma, derived sigma=exp(log_sigma), leaf pred=2mu+1, 5 observations) with kernel sequences RW(mu) + "
                  f"{{Gibbs, NUTS, IWLS}}(log_sigma), auto_update on and off, {n} jitted iterations each: after every single-kernel transition and every iteration the stored sigma, pred, "
                  "log-lik, log-prior, log-prob are compared with closed-form recomputation from the stored parameters (float64), and the other block must be bitwise "
-                 f"unchanged; same blockwise check on a dict model with RW + HMC; a model built with the deprecated GraphBuilder.transform (a calculation directly on a value node) sampled with variable-name position keys; two order-sensitive deterministic Gibbs kernels with "
+                 f"unchanged; same blockwise check on a dict model with RW + HMC; a model whose likelihood sits on a weak variable with a distribution (value path deeper than parameter path, single-key positions); a model built with the deprecated GraphBuilder.transform (a calculation directly on a value node) sampled with variable-name position keys; two order-sensitive deterministic Gibbs kernels with "
                  f"identifiers whose alphabetical order differs from the configured order (bare KernelSequence and through EngineBuilder). seed={seed}"),
         "samples": [{"auto_update": False, "kernels": ["RW(mu)", "Gibbs(log_sigma)"]}],
         "exhaustive": False, "violations": col.violations,
